@@ -371,7 +371,17 @@ def _inline_call(caller, body, idx, st, c, helper, how, where):
     hparams = set(_params(h))
     hlocals = _stored_names(h) - hparams
     ren = {}
+    if where == 'nested':
+        # the returned expression stays inside the host statement and may read the helper's locals: a second call
+        # inlined into the same statement must not rebind them, so every site gets names of its own
+        _inline_call.counter = getattr(_inline_call, 'counter', 0) + 1
+        for L in sorted(hlocals | hparams):
+            if L in hparams and any(p == L and isinstance(a, ast.Name) and a.id == L for p, a in binds):
+                continue
+            ren[L] = f'{L}__{helper.name.strip("_")}{_inline_call.counter}'
     for L in sorted(hlocals | hparams):
+        if L in ren:
+            continue
         if L in caller_names and L not in targets and _loads_after(caller, st, L):
             if L in hparams and any(p == L and isinstance(a, ast.Name) and a.id == L for p, a in binds):
                 continue  # parameter bound to the caller's variable of the same name
